@@ -257,4 +257,24 @@ PROPS = {
         'assumptions': ['identifiers and integers are single characters in the model expressions'],
         'partial': ['unbounded-depth expressions and statement roles: correspondence / implementation oracle only'],
     },
+    'C06': {
+        'coq': 'Props/C06.v',
+        'families': [
+            {'name': 'graph', 'args': {'quick': ['--random', 8000], 'thorough': ['--random', 400000]},
+             'shards': {'quick': 16, 'thorough': 16}, 'driver_args': []},
+        ],
+        'exhaustive': {'quick': False, 'thorough': False},
+        'rule': 'generated model programs of 2-11 top-level statements nested to depth 0-5: declarations (int/uint/float/bool, const, '
+                'with initializer expressions), qubits and registers, io declarations, assignments, gate calls with 0-2 modifiers of all '
+                'four kinds on built-in, standard and user gates, gphase, reset, barrier, delay, measure, if/else, while, for over '
+                'range/stepped range/set, switch with cases and default (block and single-statement bodies in every combination), '
+                'break/continue/end, gate and def definitions, def calls, casts, pragmas, annotations (also inside blocks), '
+                'include "stdgates.inc", printed in plain or rich layout with optional redundant parentheses; the whole graph is '
+                'compared node by node with the model translation of the program skeleton; non-trivial = at least two statements',
+        'trusted_base': ['Model/Graph.v (hand-written model of the statement arrangement)',
+                         'harness: reference translation of leaf statements and expressions (fam_graph.rs ref_stmt/ref_expr) and the reader of the Debug rendering of the graph'],
+        'assumptions': ['implicit and explicit casts are dropped on both sides (cast insertion is C08)',
+                        'operators outside the set the analyser supports (comparisons other than ==/!=, logical operators) are left to C03'],
+        'partial': ['leaf statements, expressions and the operator/literal mapping: implementation oracle against the reference translation'],
+    },
 }
